@@ -48,6 +48,7 @@ func (s *PreciseStrategy) TryAcquire(ctx context.Context) (token core.StrategyTo
 		s.metricListener.AddSample(float64(s.inFlight))
 		return core.NewNotAcquiredStrategyToken(int(s.inFlight)), false
 	}
+	verifPoint("precise.afterCheck")
 	s.inFlight++
 	s.metricListener.AddSample(float64(s.inFlight))
 	return core.NewAcquiredStrategyToken(int(s.inFlight), s.releaseHandler), true
